@@ -43,6 +43,12 @@ CLAIMED = {
             "symbolic execution of the real DDM/EDDM/STEPD.update with z3 against an executable specification: all outcome "
             "sequences up to N with universally quantified thresholds and arbitrary integer labels (exact floats per path), "
             "plus one inductive step from an arbitrary state in real arithmetic"),
+    "C12": ("DESIGN.md 7/C12",
+            "members modelled as the most general objects with the detector interface (arbitrary states/recommendations after "
+            "every call); selectors as tagging functions; real-member runs reuse the kernel stubs of C01/C02",
+            "relational symbolic execution of the real ensemble classes with z3: recording stub members / spy elections prove "
+            "the update, reset and set_reference fan-out (identity and order of arguments) and the views; real members inside "
+            "an ensemble are proved state-equal to independently updated twins"),
     "C13": ("DESIGN.md 7/C13",
             "members modelled as objects exposing drift_state; parameters on their documented domains; z3 LIA; CPython",
             "symbolic execution of election.py with z3: all vote patterns for n<=5/6 members with unbounded integer "
